@@ -69,8 +69,12 @@ class LogicalRecordBytes:
                 raise ValueError("Logical record too short for the requested bytes")
             is_last = end_pos == self._size
 
+        n_padding = 0
         if n_bytes < 12:
-            raise ValueError(f"Logical Record segment body cannot be shorter than 12 bytes (got {n_bytes})")
+            if start_pos != 0 or not is_last:
+                raise ValueError(f"Logical Record segment body cannot be shorter than 12 bytes (got {n_bytes})")
+            # a whole logical record shorter than the minimum: bring it up to 12 bytes with (flagged) pad bytes
+            n_padding = 12 - n_bytes
 
         segment_attributes = SegmentAttributes(
             is_eflr=self._is_eflr,
@@ -78,17 +82,20 @@ class LogicalRecordBytes:
             is_last=is_last
         )
 
-        size = n_bytes + 4  # adding header size - 4 bytes
+        size = n_bytes + n_padding + 4  # adding header size - 4 bytes
         if size % 2:
             # total segment size must be even; if the number of bytes is odd, add a padding byte
             size += 1
+            n_padding += 1
+
+        if n_padding:
             segment_attributes.has_padding = True
 
         header_bytes = RepC.UNORM.convert(size) + segment_attributes.to_struct() + self._lr_type_struct
 
         new_bts = header_bytes + self._bts[start_pos:end_pos]
-        if segment_attributes.has_padding:
-            new_bts += self.padding  # add the promised padding byte
+        if n_padding:
+            new_bts += RepC.USHORT.convert(n_padding) * n_padding  # pad bytes; (the last) pad byte holds the pad count
 
         return new_bts, size
 
